@@ -62,6 +62,6 @@ package step_invariant
 //@       (forall k in 0..i :: allocated(result[k].Samples) && allocated(result[k].SampleIDs) && fresh(result[k].Samples) && fresh(result[k].SampleIDs))
 //@   loop 0 invariant[C18] every-step-vector-owns-its-buffers: forall a in 0..i :: forall b in a+1..i ::
 //@       (ref(result[a].SampleIDs) != ref(result[b].SampleIDs) || ref(result[a].SampleIDs) == 0) && (ref(result[a].Samples) != ref(result[b].Samples) || ref(result[a].Samples) == 0)
-//@   loop 0 invariant copies: forall k in 0..i :: len(result[k].Samples) == len(u.cachedVector.Samples) && len(result[k].SampleIDs) == len(u.cachedVector.SampleIDs) &&
+//@   loop 0 invariant[C01,C06,C07] copies: forall k in 0..i :: len(result[k].Samples) == len(u.cachedVector.Samples) && len(result[k].SampleIDs) == len(u.cachedVector.SampleIDs) &&
 //@       (forall j in 0..len(u.cachedVector.Samples) :: result[k].Samples[j] == u.cachedVector.Samples[j]) &&
 //@       (forall j in 0..len(u.cachedVector.SampleIDs) :: result[k].SampleIDs[j] == u.cachedVector.SampleIDs[j])
